@@ -195,7 +195,82 @@ class Fn:
                             return vals[n.attr]
                 return n
 
+            def visit_Subscript(self, n):
+                self.generic_visit(n)
+                return fn._fold_subscript(n)
+
         return P().visit(expr)
+
+    def _int(self, e):
+        if e is None:
+            return None
+        v = self.repo.try_fold(self.module, e)
+        return v if isinstance(v, int) and not isinstance(v, bool) else None
+
+    def _arity(self, e):
+        """number of values of `<struct>.unpack_from(...)` / `<struct>.unpack(...)`"""
+        if isinstance(e, ast.Call) and isinstance(e.func, ast.Attribute) and e.func.attr in ("unpack_from", "unpack"):
+            from .model import StructVal
+            st = self.repo.try_fold(self.module, e.func.value)
+            if isinstance(st, StructVal):
+                return len(st.slots)
+        if isinstance(e, ast.Tuple) and not any(isinstance(x, ast.Starred) for x in e.elts):
+            return len(e.elts)
+        return None
+
+    def _fold_subscript(self, n: ast.Subscript):
+        """`(a, b, c)[1]` -> b; `X[a:b][i]` -> `X[a+i]`; `X[a:b][c:d]` -> one slice; `X[-1]` -> `X[N-1]` when the arity N of X is
+        known (struct unpack).  Only constant, in-range bounds are folded; anything else is left as written."""
+        base, sl = n.value, n.slice
+        N = self._arity(base)
+        if isinstance(sl, ast.Slice):
+            if sl.step is not None:
+                return n
+            lo = self._int(sl.lower) if sl.lower is not None else 0
+            hi = self._int(sl.upper) if sl.upper is not None else None
+            if lo is None or (sl.upper is not None and hi is None):
+                return n
+            if N is not None:
+                lo = lo + N if lo < 0 else lo
+                hi = N if hi is None else (hi + N if hi < 0 else min(hi, N))
+                if isinstance(base, ast.Tuple):
+                    return ast.copy_location(ast.Tuple(elts=base.elts[lo:hi], ctx=ast.Load()), n)
+            if lo < 0 or (hi is not None and hi < 0):
+                return n
+            if isinstance(base, ast.Subscript) and isinstance(base.slice, ast.Slice) and base.slice.step is None:
+                blo = self._int(base.slice.lower) if base.slice.lower is not None else 0
+                bhi = self._int(base.slice.upper) if base.slice.upper is not None else None
+                if blo is None or blo < 0 or (base.slice.upper is not None and (bhi is None or bhi < 0)):
+                    return n
+                nlo = blo + lo
+                nhi = bhi if hi is None else (blo + hi if bhi is None else min(bhi, blo + hi))
+                new = ast.Subscript(value=base.value, slice=ast.Slice(lower=ast.Constant(value=nlo) if nlo else None, upper=ast.Constant(value=nhi) if nhi is not None else None), ctx=ast.Load())
+                return ast.copy_location(new, n)
+            if N is not None and (sl.lower is None or not isinstance(sl.lower, ast.Constant) or sl.upper is None or not isinstance(sl.upper, ast.Constant)):
+                new = ast.Subscript(value=base, slice=ast.Slice(lower=ast.Constant(value=lo) if lo else None, upper=ast.Constant(value=hi)), ctx=ast.Load())
+                return ast.copy_location(new, n)
+            return n
+        i = self._int(sl)
+        if i is None:
+            return n
+        if N is not None:
+            j = i + N if i < 0 else i
+            if 0 <= j < N:
+                if isinstance(base, ast.Tuple):
+                    return base.elts[j]
+                if j != i or not isinstance(sl, ast.Constant):
+                    return ast.copy_location(ast.Subscript(value=base, slice=ast.Constant(value=j), ctx=ast.Load()), n)
+            return n
+        if isinstance(base, ast.Subscript) and isinstance(base.slice, ast.Slice) and base.slice.step is None:
+            blo = self._int(base.slice.lower) if base.slice.lower is not None else 0
+            bhi = self._int(base.slice.upper) if base.slice.upper is not None else None
+            if blo is None or blo < 0 or (base.slice.upper is not None and (bhi is None or bhi < 0)):
+                return n
+            if i >= 0 and (bhi is None or blo + i < bhi):
+                return ast.copy_location(ast.Subscript(value=base.value, slice=ast.Constant(value=blo + i), ctx=ast.Load()), n)
+            if i < 0 and bhi is not None and bhi + i >= blo:
+                return ast.copy_location(ast.Subscript(value=base.value, slice=ast.Constant(value=bhi + i), ctx=ast.Load()), n)
+        return n
 
     def expand_text(self, expr: ast.AST, at, keep=()) -> str:
         return norm_text(self.expand(expr, at, keep=keep))
@@ -229,19 +304,39 @@ class Fn:
         return f"{self.module.relpath}:{getattr(node if isinstance(node, ast.AST) else node.ast, 'lineno', 0)}"
 
 
+def _is_unpack(e) -> bool:
+    """`<struct>.unpack_from(buf)` / `<struct>.unpack(buf)`: a pure function of its arguments, so `call[i]` names its i-th value"""
+    return isinstance(e, ast.Call) and isinstance(e.func, ast.Attribute) and e.func.attr in ("unpack_from", "unpack") and not any(isinstance(x, (ast.Await, ast.NamedExpr)) for x in ast.walk(e))
+
+
 def _pairs(target, value):
     """(target element, value element|None) pairs of an assignment, descending into parallel tuples."""
     if isinstance(target, (ast.Tuple, ast.List)):
         if isinstance(value, (ast.Tuple, ast.List)) and len(value.elts) == len(target.elts):
             for t, v in zip(target.elts, value.elts):
                 yield from _pairs(t, v)
-        elif value is not None and isinstance(value, (ast.Name, ast.Attribute)) and not any(isinstance(t, ast.Starred) for t in target.elts):
+        elif value is not None and (isinstance(value, (ast.Name, ast.Attribute)) or _is_unpack(value) or (isinstance(value, ast.Subscript) and isinstance(value.slice, ast.Slice) and isinstance(value.value, (ast.Name, ast.Attribute)))) and not any(isinstance(t, ast.Starred) for t in target.elts):
             # `a, b, c = seq`: element i of the sequence
             for i, t in enumerate(target.elts):
                 sub = ast.Subscript(value=copy.deepcopy(value), slice=ast.Constant(value=i), ctx=ast.Load())
                 ast.copy_location(sub, value)
                 ast.fix_missing_locations(sub)
                 yield from _pairs(t, sub)
+        elif value is not None and (isinstance(value, (ast.Name, ast.Attribute)) or _is_unpack(value)) and sum(isinstance(t, ast.Starred) for t in target.elts) == 1:
+            # `a, *rest, z = seq`: a = seq[0], rest = seq[1:-1], z = seq[-1]
+            k = next(i for i, t in enumerate(target.elts) if isinstance(t, ast.Starred))
+            after = len(target.elts) - k - 1
+            for i, t in enumerate(target.elts):
+                if i < k:
+                    sl = ast.Constant(value=i)
+                elif i == k:
+                    sl = ast.Slice(lower=ast.Constant(value=k) if k else None, upper=ast.UnaryOp(op=ast.USub(), operand=ast.Constant(value=after)) if after else None)
+                else:
+                    sl = ast.UnaryOp(op=ast.USub(), operand=ast.Constant(value=len(target.elts) - i))
+                sub = ast.Subscript(value=copy.deepcopy(value), slice=sl, ctx=ast.Load())
+                ast.copy_location(sub, value)
+                ast.fix_missing_locations(sub)
+                yield from _pairs(t.value if isinstance(t, ast.Starred) else t, sub)
         else:
             for i, t in enumerate(target.elts):
                 yield from _pairs(t, None)
@@ -544,3 +639,149 @@ def eval_bool(e: ast.expr, atom_value: Callable[[ast.expr], Optional[bool]]) -> 
     if isinstance(e, ast.Constant):
         return bool(e.value)
     return atom_value(e)
+
+
+# ----------------------------------------------------------------------------------------------
+# guarded paths through a block: `x = A if-tree` and early assignments expressed as (literals, environment) pairs
+_POSITIVE = {ast.IsNot: ast.Is, ast.NotEq: ast.Eq, ast.NotIn: ast.In}
+
+
+def literal(test: ast.expr, truth: bool = True):
+    """(positive text, polarity) of an atomic condition: `a is not None` -> ('a is None', False)."""
+    t = copy.deepcopy(test)
+    while True:
+        if isinstance(t, ast.UnaryOp) and isinstance(t.op, ast.Not):
+            t, truth = t.operand, not truth
+            continue
+        if isinstance(t, ast.Compare) and len(t.ops) == 1 and type(t.ops[0]) in _POSITIVE:
+            t.ops = [_POSITIVE[type(t.ops[0])]()]
+            truth = not truth
+            continue
+        break
+    return norm_text(t), truth
+
+
+class _SubstEnv(ast.NodeTransformer):
+    def __init__(self, env):
+        self.env = env
+
+    def visit_Name(self, n):
+        if isinstance(n.ctx, ast.Load) and self.env.get(n.id) is not None:
+            return copy.deepcopy(self.env[n.id])
+        return n
+
+    def _scoped(self, node):
+        bound = {x.id for g in node.generators for x in ast.walk(g.target) if isinstance(x, ast.Name)}
+        saved = self.env
+        self.env = {k: v for k, v in saved.items() if k not in bound}
+        try:
+            return self.generic_visit(node)
+        finally:
+            self.env = saved
+
+    visit_ListComp = visit_SetComp = visit_DictComp = visit_GeneratorExp = _scoped
+
+    def visit_Lambda(self, node):
+        return node
+
+
+def subst_env(expr: ast.AST, env: dict) -> ast.AST:
+    return _SubstEnv(env).visit(copy.deepcopy(expr))
+
+
+def block_paths(stmts: list, env: Optional[dict] = None, conds: Optional[list] = None, limit: int = 256) -> list:
+    """Paths through a loop-free block: [(literals, env, end)] where literals is a list of (positive text, polarity) with local
+    names replaced by the expressions they were bound to on that path, env maps each local assigned on the path to its (substituted)
+    value expression (None: not expressible), and end is 'fall' | 'return' | 'raise' | 'break' | 'continue'.  Statements that are
+    not assignments / ifs make the names they bind unknown."""
+    env = dict(env or {})
+    conds = list(conds or [])
+    for i, st in enumerate(stmts):
+        if isinstance(st, ast.Assign) and len(st.targets) == 1 and isinstance(st.targets[0], ast.Name):
+            env[st.targets[0].id] = subst_env(st.value, env)
+        elif isinstance(st, ast.AnnAssign) and isinstance(st.target, ast.Name) and st.value is not None:
+            env[st.target.id] = subst_env(st.value, env)
+        elif isinstance(st, ast.If):
+            test = subst_env(st.test, env)
+            out = []
+            for lits, body in (([literal(test, True)], st.body), ([literal(test, False)], st.orelse)):
+                for c2, e2, end in block_paths(body, env, conds + lits, limit):
+                    if end == "fall":
+                        out.extend(block_paths(stmts[i + 1:], e2, c2, limit))
+                    else:
+                        out.append((c2, e2, end))
+                    if len(out) > limit:
+                        raise AnalysisError("too many paths through a block")
+            return out
+        elif isinstance(st, ast.Return):
+            env["<return>"] = subst_env(st.value, env) if st.value is not None else None
+            return [(conds, env, "return")]
+        elif isinstance(st, ast.Raise):
+            return [(conds, env, "raise")]
+        elif isinstance(st, ast.Break):
+            return [(conds, env, "break")]
+        elif isinstance(st, ast.Continue):
+            return [(conds, env, "continue")]
+        elif isinstance(st, ast.While) and isinstance(st.test, ast.Constant) and st.test.value is True and not st.orelse and _one_shot(st.body):
+            # the one-shot loop an inlined multi-exit helper becomes: its body runs once, `break` leaves it
+            out = []
+            for c2, e2, end in block_paths(st.body, env, conds, limit):
+                if end in ("break", "fall"):
+                    out.extend(block_paths(stmts[i + 1:], e2, c2, limit))
+                else:
+                    out.append((c2, e2, end))
+            return out
+        else:
+            for x in ast.walk(st):
+                if isinstance(x, ast.Name) and isinstance(x.ctx, (ast.Store, ast.Del)):
+                    env[x.id] = None
+    return [(conds, env, "fall")]
+
+
+def _one_shot(body) -> bool:
+    """every path through the body ends in break / return / raise (so `while True` runs it exactly once)"""
+    if not body:
+        return False
+    last = body[-1]
+    if isinstance(last, (ast.Break, ast.Return, ast.Raise)):
+        return not any(isinstance(x, ast.Continue) for s in body for x in ast.walk(s))
+    if isinstance(last, ast.If) and last.orelse:
+        return _one_shot(last.body) and _one_shot(last.orelse)
+    return False
+
+
+def bind_call(repo: Repo, module: Module, call: ast.Call) -> dict:
+    """{parameter name: argument expr}: keywords as written, positional arguments through the signature of the callee when it can be
+    found in the package (a function, a class constructor, or a method of the class a module-level object was built from)."""
+    out = {k.arg: k.value for k in call.keywords if k.arg}
+    if not call.args or any(isinstance(a, ast.Starred) for a in call.args):
+        return out
+    params = None
+    fnode = None
+    f = call.func
+    if isinstance(f, ast.Attribute) and isinstance(f.value, ast.Name) and f.value.id in module.assigns and isinstance(module.assigns[f.value.id], ast.Call):
+        ci = repo.resolve_class(module, module.assigns[f.value.id].func) if dotted(module.assigns[f.value.id].func) else None
+        seen = 0
+        while ci is not None and fnode is None and seen < 6:
+            fnode = ci.methods.get(f.attr)
+            if fnode is None:
+                nxt = None
+                for b in ci.bases:
+                    bb = b.value if isinstance(b, ast.Subscript) else b
+                    if dotted(bb):
+                        nxt = repo.resolve_class(ci.module, bb)
+                        if nxt is not None:
+                            break
+                ci = nxt
+            seen += 1
+        if fnode is not None:
+            params = [a.arg for a in fnode.args.posonlyargs + fnode.args.args][1:]
+    elif dotted(f):
+        s = repo.resolve(module, f)
+        if s is not None and s.kind == "function":
+            params = [a.arg for a in s.node.args.posonlyargs + s.node.args.args]
+    if params is not None:
+        for i, a in enumerate(call.args):
+            if i < len(params) and params[i] not in out:
+                out[params[i]] = a
+    return out
